@@ -21,52 +21,166 @@ func TestMain(m *testing.M) {
 
 func text(m proto.Message) string { return fmt.Sprint(m) }
 
+func rtext(m proto.Message) string { return short(text(m), 600) }
+
+// dropCostly keeps the product of two large dimensions bounded: many messages
+// times many entries per message is dropped in favour of many messages.
+func dropCostly() {
+	if bigDims[dimMsgs] && bigDims[dimEntries] {
+		delete(bigDims, dimEntries)
+	}
+}
+
+func atLeast1(n int) int {
+	if n < 1 {
+		return 1
+	}
+	return n
+}
+
 func genIngest(t *rapid.T) *Scenario {
+	drawSizeClass(t, []string{dimKeys, dimElems, dimEntries, dimLeaflist, dimNest, dimStr, dimMsgs, dimPre})
+	dropCostly()
 	sc := &Scenario{Kind: "ingest", Stamp: rapid.IntRange(0, 3).Draw(t, "stamp") == 0}
 	ts := int64(1_000_000)
-	for i := rapid.IntRange(0, 4).Draw(t, "npre"); i > 0; i-- {
+	for i := genSize(t, dimPre, "npre", upTo(4), 300); i > 0; i-- {
 		ts += 10
-		sc.Pre = append(sc.Pre, wire(genValidNotification(t, ts)))
+		sc.Pre = append(sc.Pre, wire(genValidNotification(t, ts, "dev")))
 	}
 	sc.Lifecycle = rapid.SliceOfN(rapid.SampledFrom([]string{"sync", "connect", "connecterr", "updmeta", "updsize"}), 0, 3).Draw(t, "lifecycle")
-	for i := rapid.IntRange(1, 3).Draw(t, "nmsg"); i > 0; i-- {
-		n := genNotification(t)
+	for i := atLeast1(genSize(t, dimMsgs, "nmsg", []int{1, 2, 3}, 150)); i > 0; i-- {
+		n := genNotification(t, allTargets)
 		sc.Msgs = append(sc.Msgs, wire(n))
-		sc.Text = append(sc.Text, text(n))
+		sc.Text = append(sc.Text, rtext(n))
 	}
 	return sc
 }
 
 func genSubscribe(t *rapid.T) *Scenario {
+	drawSizeClass(t, []string{dimKeys, dimElems, dimSubs, dimStr, dimMsgs, dimPre})
 	sc := &Scenario{Kind: "subscribe"}
 	ts := int64(1_000_000)
-	for i := rapid.IntRange(0, 6).Draw(t, "npre"); i > 0; i-- {
+	for i := genSize(t, dimPre, "npre", upTo(6), 300); i > 0; i-- {
 		ts += 10
-		sc.Pre = append(sc.Pre, wire(genValidNotification(t, ts)))
+		sc.Pre = append(sc.Pre, wire(genValidNotification(t, ts, "dev")))
 	}
-	for i := rapid.IntRange(1, 3).Draw(t, "nreq"); i > 0; i-- {
-		r := genSubscribeRequest(t, len(sc.Msgs) == 0)
+	for i := atLeast1(genSize(t, dimMsgs, "nreq", []int{1, 2, 3}, 60)); i > 0; i-- {
+		r := genSubscribeRequest(t, len(sc.Msgs) == 0, allTargets)
 		sc.Msgs = append(sc.Msgs, wire(r))
-		sc.Text = append(sc.Text, text(r))
+		sc.Text = append(sc.Text, rtext(r))
 	}
 	return sc
 }
 
 func genClient(t *rapid.T) *Scenario {
+	drawSizeClass(t, []string{dimKeys, dimElems, dimEntries, dimLeaflist, dimNest, dimStr, dimMsgs})
+	dropCostly()
 	sc := &Scenario{Kind: "client"}
 	sc.QueryType = rapid.SampledFrom([]string{"once", "poll", "stream"}).Draw(t, "qtype")
 	sc.Display = rapid.SampledFrom([]string{"g", "g", "s", "p", "sp"}).Draw(t, "display")
 	sc.Timestamp = rapid.SampledFrom([]string{"", "", "on", "raw", "2006"}).Draw(t, "timestamp")
-	for i := rapid.IntRange(1, 5).Draw(t, "nresp"); i > 0; i-- {
+	for i := atLeast1(genSize(t, dimMsgs, "nresp", []int{1, 2, 3, 4, 5}, 400)); i > 0; i-- {
 		r := genSubscribeResponse(t)
 		sc.Msgs = append(sc.Msgs, wire(r))
-		sc.Text = append(sc.Text, text(r))
+		sc.Text = append(sc.Text, rtext(r))
 	}
 	if rapid.IntRange(0, 1).Draw(t, "endsync") == 0 {
 		r := &pb.SubscribeResponse{Response: &pb.SubscribeResponse_SyncResponse{SyncResponse: true}}
 		sc.Msgs = append(sc.Msgs, wire(r))
 		sc.Text = append(sc.Text, text(r))
 	}
+	return sc
+}
+
+var lifeOpts = []string{"stats", "acl-allow", "acl-deny-odd", "acl-noauth", "timeout-1s", "timeout-1h", "nodup", "hooks"}
+
+// genValidSubscribeRequest draws an ordinary request for an existing target.
+func genValidSubscribeRequest(t *rapid.T, targets []string) *pb.SubscribeRequest {
+	name := func() string { return rapid.SampledFrom([]string{"a", "b", "c", "*"}).Draw(t, "qname") }
+	sl := &pb.SubscriptionList{
+		Mode:        pb.SubscriptionList_Mode(rapid.IntRange(0, 2).Draw(t, "vmode")),
+		Prefix:      &pb.Path{Target: rapid.SampledFrom(append([]string{"*", targets[0]}, targets...)).Draw(t, "vtarget")},
+		UpdatesOnly: rapid.IntRange(0, 4).Draw(t, "vuo") == 0,
+	}
+	for i := rapid.IntRange(1, 3).Draw(t, "vnsub"); i > 0; i-- {
+		p := &pb.Path{}
+		for j := rapid.IntRange(1, 3).Draw(t, "vqlen"); j > 0; j-- {
+			p.Elem = append(p.Elem, &pb.PathElem{Name: name()})
+		}
+		sl.Subscription = append(sl.Subscription, &pb.Subscription{Path: p})
+	}
+	return &pb.SubscribeRequest{Request: &pb.SubscribeRequest_Subscribe{Subscribe: sl}}
+}
+
+// genLife draws the life of one (cache, server) pair: see life.go.
+func genLife(t *rapid.T) *Scenario {
+	bigDims = nil
+	sc := &Scenario{Kind: "life"}
+	for _, o := range lifeOpts {
+		odds := 1
+		if o == "stats" {
+			odds = 3 // most servers keep statistics
+		}
+		if rapid.IntRange(0, odds).Draw(t, "opt-"+o) > 0 {
+			sc.Opts = append(sc.Opts, o)
+		}
+	}
+	sc.Targets = rapid.SampledFrom([]int{2, 2, 3, 5, 9, 17, 33, 40}).Draw(t, "ntargets")
+	targets := lifeTargets(sc.Targets)
+	nops := rapid.IntRange(0, 7).Draw(t, "nops50")*50 + rapid.IntRange(1, 50).Draw(t, "nops")
+	// what the life mostly consists of
+	weights := rapid.SampledFrom([][]string{
+		{"r", "r", "r", "r", "n", "n", "n", "l", "l", "p"},
+		{"r", "r", "r", "r", "r", "r", "r", "r", "n", "l", "p"},
+		{"n", "n", "n", "n", "n", "n", "n", "n", "r", "l", "p"},
+	}).Draw(t, "profile")
+	ts := int64(1_000_000)
+	for i := 0; i < nops; i++ {
+		// sizes: most steps are small, one in sixteen has one large dimension
+		bigDims = nil
+		if rapid.IntRange(0, 15).Draw(t, "bigstep") == 15 {
+			bigDims = map[string]bool{rapid.SampledFrom([]string{dimKeys, dimElems, dimEntries, dimSubs, dimLeaflist, dimNest, dimStr}).Draw(t, "bigdim"): true}
+		}
+		op := LifeOp{Op: rapid.SampledFrom(weights).Draw(t, "op")}
+		switch op.Op {
+		case "n":
+			var n *pb.Notification
+			op.Target = rapid.IntRange(0, len(targets)-1).Draw(t, "ntarget")
+			if rapid.IntRange(0, 2).Draw(t, "validn") == 0 {
+				ts += 10
+				n = genValidNotification(t, ts, targets[op.Target])
+			} else {
+				n = genNotification(t, targets)
+				op.Stamp = rapid.IntRange(0, 3).Draw(t, "stamp") == 0
+			}
+			op.Msg, op.Text = wire(n), rtext(n)
+		case "r":
+			var texts []string
+			for j := rapid.SampledFrom([]int{1, 1, 1, 2, 3, 0}).Draw(t, "nreq"); j > 0; j-- {
+				var r *pb.SubscribeRequest
+				if len(op.Reqs) == 0 && rapid.IntRange(0, 3).Draw(t, "validr") == 0 {
+					r = genValidSubscribeRequest(t, targets)
+				} else {
+					r = genSubscribeRequest(t, len(op.Reqs) == 0, targets)
+				}
+				op.Reqs = append(op.Reqs, wire(r))
+				texts = append(texts, rtext(r))
+			}
+			op.Text = fmt.Sprint(texts)
+			op.Hold = rapid.SampledFrom([]int{0, 0, 0, 0, 1, 2, 5, 20, 100}).Draw(t, "hold")
+			op.Cancel = rapid.Bool().Draw(t, "cancel")
+			op.NoAuth = rapid.IntRange(0, 7).Draw(t, "noauth") == 0
+			op.Peer = rapid.IntRange(0, 63).Draw(t, "peer")
+		case "l":
+			op.Call = rapid.SampledFrom([]string{"sync", "connect", "connecterr", "updmeta", "updsize", "stats", "reset", "remove", "add", "add"}).Draw(t, "call")
+			op.Target = rapid.IntRange(0, len(targets)-1).Draw(t, "ltarget")
+		case "p":
+			op.Target = rapid.IntRange(0, len(targets)-1).Draw(t, "ptarget")
+			op.Peer = rapid.IntRange(0, 63).Draw(t, "peer")
+		}
+		sc.Ops = append(sc.Ops, op)
+	}
+	bigDims = nil
 	return sc
 }
 
@@ -78,6 +192,8 @@ func runScenario(t *testing.T, sc *Scenario) (*stats, error) {
 		return runSubscribe(t, sc)
 	case "client":
 		return runClient(sc)
+	case "life":
+		return runLife(t, sc)
 	}
 	return &stats{}, fmt.Errorf("unknown scenario kind %q", sc.Kind)
 }
@@ -105,6 +221,7 @@ func part(t *testing.T, name string, gen func(*rapid.T) *Scenario) {
 func TestC12Ingest(t *testing.T)    { part(t, "ingest", genIngest) }
 func TestC12Subscribe(t *testing.T) { part(t, "subscribe", genSubscribe) }
 func TestC12Client(t *testing.T)    { part(t, "client", genClient) }
+func TestC12Life(t *testing.T)      { part(t, "life", genLife) }
 
 // TestReplay re-runs a saved scenario without the library.
 func TestReplay(t *testing.T) {
